@@ -666,7 +666,41 @@ func runC02(c *Ctx) {
 			}
 			nRet++
 			r := ret.Results[0]
-			if _, isC := r.(*ssa.Const); isC {
+			// a constant verdict, directly or as the result of a helper that only returns constants
+			var verdict func(v ssa.Value, depth int) bool
+			verdict = func(v ssa.Value, depth int) bool {
+				if depth > 3 {
+					return false
+				}
+				switch x := v.(type) {
+				case *ssa.Const:
+					return true
+				case *ssa.Phi:
+					for _, e := range x.Edges {
+						if !verdict(e, depth+1) {
+							return false
+						}
+					}
+					return true
+				case *ssa.Call:
+					g := x.Call.StaticCallee()
+					if g == nil || core.FuncPkgPath(g) != v2pkg || len(g.Blocks) == 0 {
+						return false
+					}
+					nr := 0
+					for _, gb := range g.Blocks {
+						if gr, ok := gb.Instrs[len(gb.Instrs)-1].(*ssa.Return); ok {
+							nr++
+							if len(gr.Results) != 1 || !verdict(gr.Results[0], depth+1) {
+								return false
+							}
+						}
+					}
+					return nr > 0
+				}
+				return false
+			}
+			if verdict(r, 0) {
 				continue
 			}
 			call, isCall := r.(*ssa.Call)
